@@ -121,7 +121,13 @@ def run (c : Case) : String :=
       else if op == "ThrottleWhen" then report c.id throttleWhenM cfg sub order cut 0 n (fun _ => sub) ws (fun evs => Spec.throttleWhen false (heard2 evs))
       else s!"res {c.id} unsupported"
 
-/-- `kind=multimicro` / `kind=multipark`: TakeUntil under a schedule of atomic actions (RoModel/Multi/Micro.lean):
+/-- `kind=multipark`: the harness parks the signal of TakeUntil inside its callback while the source goes on and
+    reports whether the delivered trace is the trace of some interleaving. The model's answer is a theorem
+    (`C05a.takeUntil_concurrent`: every schedule of atomic actions is explained by an arrival order). -/
+def runPark (c : Case) : String :=
+  if c.getD "op" "?" == "TakeUntil" then s!"res {c.id} park=explained" else s!"res {c.id} unsupported"
+
+/-- `kind=multimicro`: TakeUntil under a schedule of atomic actions (RoModel/Multi/Micro.lean):
     `sched` entry 0 = the source thread handles its next notification, 1 = the signal thread's next micro-step -/
 def runMicro (c : Case) : String :=
   let sub := parseCtx (c.getD "sub" "-")
